@@ -104,15 +104,16 @@ fn run_class(t: &mut Tape, cx: &mut Cx) -> Result<(), String> {
     let gmod = t.below(8) as usize;
     let lmod = t.below(8) as usize;
     let at_end = t.below(2) == 1;
-    run_one(entry, len, gmod, lmod, 0, at_end, cx)
+    let adj = t.below(3) as usize;
+    run_one(entry, len, gmod, lmod, 0, at_end, adj, cx)
 }
 
-fn run_one(entry: usize, len: usize, gmod: usize, lmod: usize, extra_off: usize, at_end: bool, cx: &mut Cx) -> Result<(), String> {
+fn run_one(entry: usize, len: usize, gmod: usize, lmod: usize, extra_off: usize, at_end: bool, adj: usize, cx: &mut Cx) -> Result<(), String> {
     let is_obj = (25..=30).contains(&entry);
     let len = if is_obj { [1usize, 2, 4, 8][len % 4] } else { len };
     // region / guest level: optionally the last possible position inside the 64-byte region
     let at_end = at_end && (15..=30).contains(&entry) || at_end && entry >= 33;
-    let what = format!("{}(len {}, guest%8={}, local%8={}{})", ENTRY_NAMES[entry], len, gmod, lmod, if at_end { ", at the end of the region" } else { "" });
+    let what = format!("{}(len {}, guest%8={}, local%8={}{}{})", ENTRY_NAMES[entry], len, gmod, lmod, if at_end { ", at the end of the region" } else { "" }, ["", ", buffer directly behind the location", ", buffer directly in front of the location"][if (entry <= 11 || entry == 13) && len > 0 { adj } else { 0 }]);
     if at_end {
         cx.nt("ends_at_region_end");
     }
@@ -127,6 +128,12 @@ fn run_one(entry: usize, len: usize, gmod: usize, lmod: usize, extra_off: usize,
     let lptr = local.ptr() as usize + lmod;
     let pattern: Vec<u8> = (0..len).map(|i| 0xA0u8.wrapping_add(i as u8)).collect();
     local.slice_mut(lmod, len).copy_from_slice(&pattern);
+    // slice-level entries with a caller-supplied buffer: the buffer may sit directly behind (1) or
+    // directly in front of (2) the guest location, in the same allocation (touching, not overlapping)
+    let adj = if (entry <= 11 || entry == 13) && len > 0 && (adj != 2 || goff >= len) { adj } else { 0 };
+    if adj != 0 {
+        cx.nt("buffer_adjacent_to_location");
+    }
     let guest_slice = cont.ptr() as usize + goff;
     let res: Result<(Vec<Access>, usize, bool), String> = WORLD.with(|w| {
         let region = w.mem.iter().next().unwrap();
@@ -140,7 +147,16 @@ fn run_one(entry: usize, len: usize, gmod: usize, lmod: usize, extra_off: usize,
                 $x.map(|_| ()).map_err(|err| format!("{}: unexpected error {:?}", what, err))?
             };
         }
-        let lbuf: &mut [u8] = local.slice_mut(lmod, len);
+        let lbuf: &mut [u8] = match adj {
+            // SAFETY: inside the 96-byte container, disjoint from the guest location.
+            1 => unsafe { std::slice::from_raw_parts_mut(cont.ptr().add(goff + len), len) },
+            // SAFETY: as above.
+            2 => unsafe { std::slice::from_raw_parts_mut(cont.ptr().add(goff - len), len) },
+            _ => local.slice_mut(lmod, len),
+        };
+        if adj != 0 {
+            lbuf.copy_from_slice(&pattern);
+        }
         trace_arm();
         let (guest, gdst) = match entry {
             0 => { ok!(cs.write(lbuf, goff)); (guest_slice, true) }
@@ -218,7 +234,8 @@ fn run_one(entry: usize, len: usize, gmod: usize, lmod: usize, extra_off: usize,
 fn gen_classes(_t: Tier) -> Box<dyn Iterator<Item = Vec<u64>>> {
     Box::new((0..NENTRY).flat_map(|e| {
         let ends: u64 = if (15..=30).contains(&e) || e >= 33 { 2 } else { 1 };
-        (0..25u64).flat_map(move |len| (0..8u64).flat_map(move |g| (0..8u64).flat_map(move |l| (0..ends).map(move |at| vec![e, len, g, l, at]))))
+        let adjs: u64 = if e <= 11 || e == 13 { 3 } else { 1 };
+        (0..25u64).flat_map(move |len| (0..8u64).flat_map(move |g| (0..8u64).flat_map(move |l| (0..ends).flat_map(move |at| (0..adjs).filter(move |a| *a == 0 || l == 0).map(move |a| vec![e, len, g, l, at, a])))))
     }))
 }
 
@@ -233,7 +250,8 @@ fn run_random(t: &mut Tape, cx: &mut Cx) -> Result<(), String> {
     let lmod = t.idx(8);
     let extra = 8 * t.idx(3);
     let at_end = t.chance(1, 4);
-    run_one(entry, len, gmod, lmod, extra, at_end, cx)
+    let adj = if t.chance(1, 3) { 1 + t.idx(2) } else { 0 };
+    run_one(entry, len, gmod, lmod, extra, at_end, adj, cx)
 }
 
 /// Atomic API: every AtomicAccess type at every offset mod 16, all orderings.
@@ -365,14 +383,21 @@ fn run_tearing(t: &mut Tape, cx: &mut Cx) -> Result<(), String> {
     let width = [2usize, 4, 8][t.below(3) as usize];
     let writer_is_lib = t.below(2) == 0;
     let off = t.below(4) as usize * width; // aligned to width, not necessarily to 2*width
+    // the caller's buffer is a separate object, or touches the location (same allocation)
+    let adjacent = t.below(2) == 1;
     let iters: u64 = if cx.tier == Tier::Quick { 400_000 } else { 150_000_000 };
-    note!(cx, "tearing: width {} offset {} {} x{}", width, off, if writer_is_lib { "library writes, atomic reader" } else { "atomic writer, library reads" }, iters);
+    note!(cx, "tearing: width {} offset {} {} x{}{}", width, off, if writer_is_lib { "library writes, atomic reader" } else { "atomic writer, library reads" }, iters, if adjacent { ", buffers touching the location" } else { "" });
     cx.nt("tearing_detector");
     let cont = Aligned::new(128);
     let base = (16 - (cont.ptr() as usize % 16)) % 16;
     let ptr = cont.ptr() as usize + base + 16 + off;
-    // SAFETY: inside the live buffer; start from a legal value.
-    unsafe { std::ptr::write_bytes(ptr as *mut u8, 0, width) };
+    // SAFETY: inside the live buffer; start from a legal value. The `width` bytes in front of the
+    // location hold 00.., the ones behind it FF.. (sources of the adjacent-buffer writes).
+    unsafe {
+        std::ptr::write_bytes(ptr as *mut u8, 0, width);
+        std::ptr::write_bytes((ptr - width) as *mut u8, 0, width);
+        std::ptr::write_bytes((ptr + width) as *mut u8, 0xFF, width);
+    }
     let stop = AtomicBool::new(false);
     let torn = std::sync::Mutex::new(None::<u64>);
     let mask: u64 = if width == 8 { u64::MAX } else { (1u64 << (8 * width)) - 1 };
@@ -385,7 +410,11 @@ fn run_tearing(t: &mut Tape, cx: &mut Cx) -> Result<(), String> {
             let s = unsafe { VolatileSlice::new(ptr as *mut u8, width) };
             let mut i = 0u64;
             while i < iters && !stop.load(Ordering::Relaxed) {
-                if writer_is_lib {
+                if writer_is_lib && adjacent {
+                    // SAFETY: constant bytes next to the location, never written during the run.
+                    let src = unsafe { std::slice::from_raw_parts((if i & 1 == 0 { ptr - width } else { ptr + width }) as *const u8, width) };
+                    let _ = s.write(src, 0);
+                } else if writer_is_lib {
                     let v = if i & 1 == 0 { 0u64 } else { u64::MAX };
                     let _ = match width {
                         2 => s.write_obj(v as u16, 0),
@@ -393,10 +422,19 @@ fn run_tearing(t: &mut Tape, cx: &mut Cx) -> Result<(), String> {
                         _ => s.write_obj(v, 0),
                     };
                 } else {
-                    let v: u64 = match width {
-                        2 => s.read_obj::<u16>(0).map(|x| x as u64).unwrap_or(0),
-                        4 => s.read_obj::<u32>(0).map(|x| x as u64).unwrap_or(0),
-                        _ => s.read_obj::<u64>(0).unwrap_or(0),
+                    let v: u64 = if adjacent {
+                        // SAFETY: scratch bytes directly behind the location, used by this thread only.
+                        let dst = unsafe { std::slice::from_raw_parts_mut((ptr + width) as *mut u8, width) };
+                        let _ = s.read(dst, 0);
+                        let mut b = [0u8; 8];
+                        b[..width].copy_from_slice(dst);
+                        u64::from_ne_bytes(b)
+                    } else {
+                        match width {
+                            2 => s.read_obj::<u16>(0).map(|x| x as u64).unwrap_or(0),
+                            4 => s.read_obj::<u32>(0).map(|x| x as u64).unwrap_or(0),
+                            _ => s.read_obj::<u64>(0).unwrap_or(0),
+                        }
                     };
                     if v != 0 && v != mask {
                         *torn.lock().unwrap() = Some(v);
@@ -444,7 +482,7 @@ fn run_tearing(t: &mut Tape, cx: &mut Cx) -> Result<(), String> {
 }
 
 fn gen_tearing(_t: Tier) -> Box<dyn Iterator<Item = Vec<u64>>> {
-    Box::new((0..3u64).flat_map(|w| (0..2u64).flat_map(move |d| (0..4u64).map(move |o| vec![w, d, o]))))
+    Box::new((0..3u64).flat_map(|w| (0..2u64).flat_map(move |d| (0..4u64).flat_map(move |o| (0..2u64).map(move |a| vec![w, d, o, a])))))
 }
 
 /// Store-buffering litmus test for the requested ordering: two threads, two locations; each
@@ -615,7 +653,7 @@ fn gen_xen_atomic(_t: Tier) -> Box<dyn Iterator<Item = Vec<u64>>> {
 pub fn property() -> Property {
     Property {
         id: "C06",
-        rule: "complete enumeration of (entry point x length 0..=24 x guest address mod 8 x local address mod 8) for 35 entry points that funnel into the byte-copy helper (buffer reads/writes at slice, region and guest level, 1-byte-element copies, in-memory stream adapters incl. nearly full Vec sinks through the write_all paths, object reads/writes of 1/2/4/8 bytes), region/guest-level entries additionally at the last possible position inside the region; oracle = trace of the primitive accesses the library requests (hook): length in {1,2,4,8} with both addresses aligned to it => exactly one access of that width; plus the atomic load/store API for every AtomicAccess type x offset mod 16 x level (misaligned refused, aligned round trip), random offsets, a threaded tearing detector and a store-buffering litmus test (SeqCst requested at slice / region / guest / atomic-reference level) with fixed iteration counts; xen build: the atomic API for every type x offset (0..15 and around a page boundary) x level over emulated regions of every kind, judged through the device file; non-trivial = aligned power-of-two transfer (the rule bites), atomic API class, tearing run; distinct = (entry, len, guest mod 8, local mod 8)",
+        rule: "complete enumeration of (entry point x length 0..=24 x guest address mod 8 x local address mod 8) for 35 entry points that funnel into the byte-copy helper (buffer reads/writes at slice, region and guest level, 1-byte-element copies, in-memory stream adapters incl. nearly full Vec sinks through the write_all paths, object reads/writes of 1/2/4/8 bytes), region/guest-level entries additionally at the last possible position inside the region, slice-level entries with a caller-supplied buffer additionally with the buffer touching the guest location on either side; oracle = trace of the primitive accesses the library requests (hook): length in {1,2,4,8} with both addresses aligned to it => exactly one access of that width; plus the atomic load/store API for every AtomicAccess type x offset mod 16 x level (misaligned refused, aligned round trip), random offsets, a threaded tearing detector and a store-buffering litmus test (SeqCst requested at slice / region / guest / atomic-reference level) with fixed iteration counts; xen build: the atomic API for every type x offset (0..15 and around a page boundary) x level over emulated regions of every kind, judged through the device file; non-trivial = aligned power-of-two transfer (the rule bites), atomic API class, tearing run; distinct = (entry, len, guest mod 8, local mod 8)",
         assumptions: &["a naturally aligned volatile load/store of <= 8 bytes is a single machine access on the supported 64-bit targets", "the hook observes the accesses the library requests; a change inside one copy_single arm is visible only to the tearing detector", "guest regions start at multiples of 8 so guest and host alignment coincide"],
         subchecks: vec![
             SubCheck { name: "classes", builds: &[Build::Std, Build::Plain], kind: Kind::Exhaustive { gen: gen_classes }, run: run_class },
